@@ -2735,6 +2735,7 @@ JANET_CORE_FN(os_open,
                 break;
             case 'a':
                 open_flags |= O_APPEND;
+                janet_sandbox_assert(JANET_SANDBOX_FS_WRITE);
                 break;
         }
     }
@@ -2744,6 +2745,8 @@ JANET_CORE_FN(os_open,
     } else if (write_flag && !read_flag) {
         open_flags |= O_WRONLY;
     } else {
+        /* Neither :r nor :w given (or both): the file is opened for reading and writing */
+        janet_sandbox_assert(JANET_SANDBOX_FS_READ | JANET_SANDBOX_FS_WRITE);
         open_flags |= O_RDWR;
     }
 
